@@ -289,7 +289,7 @@ CLAIM.update({
 
 PLAN["C18"] = dict(
     quick=[dict(test="TestC18Rapid", checks=3000), *shards("TestC18Enum", 4)],
-    thorough=[*shards("TestC18Rapid", 12, checks=30000), *shards("TestC18Enum", 4)],
+    thorough=[*shards("TestC18Rapid", 12, checks=30000), *shards("TestC18Enum", 4), dict(fuzz="FuzzC18", seconds=60)],
 )
 
 LEVEL.update({"C18": "exploration"})
